@@ -7,6 +7,7 @@ CONSTANTS
   WordLens <- WordLensT
   DataLenSeqs <- DataLenSeqsT
   Versions <- VersionsAll
+  Crudes <- CrudesQ
   Fixups = TRUE
   CorruptAll = FALSE
   Emit = TRUE
